@@ -5,7 +5,7 @@ CONSTANTS
   CommentTexts <- CommentsQ
   DefLines <- Def
   CliLines <- Cli
-  MaxLines = 4
+  MaxLines = 3
   MaxFiles = 2
 INVARIANT ParseIsFunction
 INVARIANT EscapedNeverStructural
